@@ -83,10 +83,12 @@ pub const SMALL_IDS: &[&[u8]] = &[b"1-0", b"1-1", b"2-0", b"2-5", b"3-0", b"3-1"
     b"20-0", b"21-0", b"22-0", b"23-0", b"30-0", b"30-1", b"30-2", b"50-0"];
 pub const ODD_IDS: &[&[u8]] = &[b"0-0", b"-", b"5-", b"-5", b"5", b"abc", b"5-x", b"", b"+", b"(5-0", b"18446744073709551616-0",
     b"18446744073709551617-1", b"5-18446744073709551616", b"1-2-3", b"007-01", b" 5-0", b"\xff-1", b"$", b">", b"0"];
-/// ahead of the wall clock (auto IDs then continue the sequence); never with a sequence
-/// number near u64::MAX: `XADD *` after it panics (finding xadd-seq-overflow)
+/// ahead of the wall clock (auto IDs then continue the sequence), incl. exhausted sequence
+/// numbers (the next auto ID rolls over to the next millisecond) and the last possible ID
+/// (XADD * is then refused) - the former crash class xadd-seq-overflow, fixed by fb507d0
 pub const FUTURE_IDS: &[&[u8]] = &[b"9999999999999-0", b"9999999999999-5", b"9999999999999-6", b"18446744073709551615-0",
-    b"18446744073709551615-7", b"5000000000000-0"];
+    b"18446744073709551615-7", b"5000000000000-0", b"9999999999999-18446744073709551615", b"9999999999999-18446744073709551614",
+    b"18446744073709551615-18446744073709551615", b"18446744073709551615-18446744073709551614", b"18446744073709551614-18446744073709551615"];
 pub const BOUNDS: &[&[u8]] = &[b"-", b"+", b"0-0", b"0-1", b"0-2", b"1-0", b"2-0", b"2-1", b"3-0", b"3-7", b"4-0", b"4-9", b"5-0", b"5-1",
     b"5-2", b"5-3", b"6-0", b"6-5", b"7-0", b"7-3", b"8-0", b"9-0", b"10-0", b"12-0", b"13-0", b"25-0", b"30-1", b"60-0",
     b"1700000000000-0", b"9999999999998-0", b"9999999999999-5", b"18446744073709551615-18446744073709551615",
@@ -267,6 +269,29 @@ pub fn push_cmd(r: &mut Rng, ops: &mut Vec<Vec<Tok>>, c: &[Vec<u8>]) {
 pub fn gen(seed: u64, n: usize, _tier: &str) -> Vec<Case> {
     let mut r = Rng::new(seed);
     let mut cases = vec![];
+    // the generator of `*` against explicit IDs at or ahead of the clock: several explicit IDs within one
+    // millisecond (rising sequence numbers), then bursts of `*`, duplicates and smaller IDs that must be
+    // refused, deletions/trims of the top entry in between, ranges and lengths after every phase
+    for (id, ms) in [&b"9999999999999"[..], b"5000000000000", b"18446744073709551615", b"18446744073709551614"].iter().enumerate() {
+        let mut ops = vec![conn_op(1)];
+        let idf = |seq: u64| -> Vec<u8> { let mut x = ms.to_vec(); x.push(b'-'); x.extend(seq.to_string().bytes()); x };
+        let mut seqs: Vec<u64> = vec![r.below(4)]; for _ in 0..(1 + r.below(3)) { let l = *seqs.last().unwrap(); seqs.push(l + 1 + r.below(7)); }
+        for k in [&b"x1"[..], b"x2"] {
+            for q in &seqs { ops.push(cmd_op(1, &[b"XADD", k, &idf(*q), b"f", b"v"])); }
+            for _ in 0..(1 + r.below(3)) { ops.push(cmd_op(1, &[b"XADD", k, b"*", b"f", b"auto"])); }
+            ops.push(cmd_op(1, &[b"XADD", k, &idf(*seqs.last().unwrap()), b"f", b"dup"]));
+            ops.push(cmd_op(1, &[b"XADD", k, &idf(seqs[0]), b"f", b"old"]));
+            ops.push(cmd_op(1, &[b"XLEN", k])); ops.push(cmd_op(1, &[b"XRANGE", k, b"-", b"+"])); ops.push(cmd_op(1, &[b"XREVRANGE", k, b"+", b"-", b"COUNT", b"2"]));
+            if k == b"x2" { ops.push(cmd_op(1, &[b"XTRIM", k, b"MAXLEN", b"1"])); } else { ops.push(cmd_op(1, &[b"XDEL", k, &idf(*seqs.last().unwrap())])); }
+            ops.push(cmd_op(1, &[b"XADD", k, b"*", b"f", b"after"]));
+            ops.push(cmd_op(1, &[b"XADD", k, &idf(seqs.last().unwrap() + 1), b"f", b"late"]));
+            ops.push(cmd_op(1, &[b"XADD", k, b"*", b"f", b"after2"]));
+            ops.push(cmd_op(1, &[b"XRANGE", k, &idf(0), b"+"])); ops.push(cmd_op(1, &[b"XREAD", b"STREAMS", k, &idf(seqs[0])]));
+        }
+        let mut keys: Vec<&[u8]> = SKEYS.to_vec(); keys.push(STRKEY);
+        dump_ops(1, &keys, &mut ops);
+        cases.push(Case { id: format!("fut-{}", id), ops, outs: vec![] });
+    }
     for id in 0..n {
         let mut ops = vec![conn_op(1)];
         let mut st = GenSt { next_ms: 1, auto_share: *r.pick(&[0u64, 0, 5, 15, 40, 90]), added: vec![] };
